@@ -641,6 +641,13 @@ class FuncVerifier:
             ck = self.E.fe.resolve(name, self.module, strict=False)
             if ck is not None and (name in self.module.classes or name in self.module.imports):
                 return SV(P.I(z3.IntVal(self.E.class_id(ck))), T.Abs('PyType'))
+        if spec and self.in_slice():
+            # a site clause may mention a declared local that is not bound yet on this path: an arbitrary value of its type
+            dt = self.declared_local(name)
+            if dt is not None:
+                sv = self.E.fresh(name, dt)
+                st.env[name] = sv
+                return sv
         self.err(node, 'unknown name %r' % name)
 
     def global_key(self, name):
@@ -1497,8 +1504,93 @@ class FuncVerifier:
                     self.oblige(st, 'site[store .%s@%s]/inv[%s]' % (attr, site_ordinal(self, stmt, 'store .' + attr), sname),
                                 g, node)
 
+    def record_display(self, s, st, rty):
+        """name = {'field': value, ...} where `name` is declared with a dict_record type: a fresh record object whose fields
+        are the values of the display.  In slice mode a value outside the subset is an arbitrary value (after a heap havoc
+        if evaluating it may have called unknown code); the other fields keep their values."""
+        from .heap import new_object
+        vals = []
+        for k, v in zip(s.value.keys, s.value.values):
+            if self.in_slice():
+                no, snap_env, snap_heap, snap_pc = len(self.obligations), dict(st.env), dict(st.heap), st.pc
+                try:
+                    vals.append((k.value, self.ev(v, st, False)))
+                except (Unsupported, EngineError, z3.Z3Exception) as e:
+                    del self.obligations[no:]
+                    st.env, st.heap, st.pc = snap_env, snap_heap, snap_pc
+                    from .slicing import havoc_state, probe_sites, reads_only
+                    probe_sites(self, ast.Expr(value=v), st, 'value of a record display: %s' % str(e)[:120])
+                    self.abstracted.append(dict(line=v.lineno, stmt='record field %r = %s' % (k.value, ast.unparse(v)[:70]),
+                                                reason=str(e)[:160]))
+                    if not reads_only(v):
+                        havoc_state(self, st, set())
+                    vals.append((k.value, None))
+            else:
+                vals.append((k.value, self.ev(v, st, False)))
+        o = new_object(self, st, rty.name, base='rec')
+        self.note_unescaped_record(s.targets[0].id)
+        tmp = '__rec%d' % next(self.E.counter)
+        st.env[tmp] = o
+        for fname, sv in vals:
+            fty = self.field_type(rty.name, fname, s)
+            if sv is None:
+                sv = self.E.fresh('fld_' + fname, fty)
+                tf = self.typed_fact(sv.term, fty)
+                if not z3.is_true(tf):
+                    self.add_fact(st, tf)
+            fake = ast.copy_location(ast.Attribute(value=ast.copy_location(ast.Name(id=tmp, ctx=ast.Load()), s),
+                                                   attr=fname, ctx=ast.Store()), s)
+            self.assign_into(fake, sv, st)
+        del st.env[tmp]
+        return o
+
+    def note_unescaped_record(self, name):
+        """the local `name` holds record objects built from dict displays; it does not escape before the function returns if
+        every occurrence of the name in the function is (a) the target of such a display, (b) the base of a subscript
+        (read or store of a field), or (c) inside a return statement.  Then unknown callees cannot reach the record."""
+        if not hasattr(self, 'unescaped_records'):
+            self.unescaped_records = set()
+        if self.fn is None:
+            return
+        parents = {}
+        for p_ in ast.walk(self.fn):
+            for ch in ast.iter_child_nodes(p_):
+                parents[ch] = p_
+        ok = True
+        for n in ast.walk(self.fn):
+            if isinstance(n, ast.Name) and n.id == name:
+                par = parents.get(n)
+                if isinstance(par, ast.Subscript) and par.value is n:
+                    continue
+                if isinstance(par, ast.Assign) and n in par.targets and isinstance(par.value, ast.Dict):
+                    continue
+                q = par
+                inside_return = False
+                while q is not None:
+                    if isinstance(q, ast.Return):
+                        inside_return = True
+                        break
+                    q = parents.get(q)
+                if inside_return:
+                    continue
+                ok = False
+            elif isinstance(n, (ast.FunctionDef, ast.Lambda)) and n is not self.fn:
+                # a nested function could capture the name
+                if any(isinstance(x, ast.Name) and x.id == name for x in ast.walk(n)):
+                    ok = False
+        if ok:
+            self.unescaped_records.add(name)
+        else:
+            self.unescaped_records.discard(name)
+
     def ex_Assign(self, s, st):
         self._cur_stmt = s
+        if len(s.targets) == 1 and isinstance(s.targets[0], ast.Name) and isinstance(s.value, ast.Dict) \
+                and s.value.keys and all(isinstance(k, ast.Constant) and isinstance(k.value, str) for k in s.value.keys):
+            dt = self.declared_local(s.targets[0].id)
+            if dt is not None and self.is_record(dt.strip_opt()):
+                self.assign_into(s.targets[0], self.record_display(s, st, dt.strip_opt()), st)
+                return
         sv = self.ev(s.value, st, False)
         if len(s.targets) == 1 and isinstance(s.targets[0], ast.Name) and sv.term.sort() == P.V \
                 and self.pattern_unsafe(sv.term):
